@@ -12,7 +12,7 @@ BOUNDS = ("both base addresses (and member bases) symbolic over all 2^32 values;
           "host, zero wildcard, prefix (foreign on IOS), any} x platforms {ios, nxos}: quick = every mask pair under one spelling/"
           "platform combination drawn from the seed + all spelling combinations on 4x4 contiguous lengths; thorough = every mask "
           "pair under every applicable spelling combination on both platforms; address-group members: contiguous lengths "
-          "{0,8,24,31,32} in every native member spelling; groups of <=2 members; object-group addresses with <=2 member items.")
+          "{0,8,24,31,32} in every native member spelling; groups of <=2 members; object-group addresses with <=2 member items (top groups also with 3 members of mixed prefix lengths).")
 ASSUMPTIONS = ["set inclusion of wildcard sets uses a closed form proved equivalent to its definition by two witness lemmas "
                "(re-proved by z3 at the start of every run)"]
 
@@ -153,7 +153,8 @@ def h_grouped(ctx):
     def group(name, n):
         items, preds = [], []
         for i in range(n):
-            mi = ctx.pick(f"{name}m{i}", mlist)
+            # three members: mixed prefix lengths with the longest in the middle (order matters for shortcuts)
+            mi = ctx.pick(f"{name}m{i}", mlist if n < 3 else [[m2i("0.0.0.255")], [3, 0], [m2i("0.0.0.255"), m2i("0.0.255.255")]][i])
             t, v = spell(ctx, f"{name}{i}_", mi, "wild")
             items.append(t)
             preds.append((v, mi))
@@ -164,7 +165,7 @@ def h_grouped(ctx):
         t, v = spell(ctx, name, mi, "wild")
         return Address(t, platform=platform), [(v, mi)]
 
-    nt = ctx.pick("nt", [1, 2]) if side in ("top", "both") else 0
+    nt = ctx.pick("nt", [1, 2, 3]) if side in ("top", "both") else 0
     nb = ctx.pick("nb", [1, 2] if nt < 2 else [1]) if side in ("bottom", "both") else 0
     top, tp = group("t", nt) if nt else single("t")
     bot, bp = group("b", nb) if nb else single("b")
@@ -205,7 +206,7 @@ def _grouped_shards():
     out = []
     for p in ("ios", "nxos"):
         for side in ("top", "bottom", "both"):
-            for nt in ([1, 2] if side in ("top", "both") else [0]):
+            for nt in ([1, 2, 3] if side == "top" else [1, 2] if side == "both" else [0]):
                 for nb in (([1, 2] if nt < 2 else [1]) if side in ("bottom", "both") else [0]):
                     d = {"platform": p, "side": side}
                     if nt:
@@ -213,6 +214,10 @@ def _grouped_shards():
                     if nb:
                         d["nb"] = nb
                     firsts = [("tm0" if nt else "tm"), ("bm0" if nb else "bm")]
+                    if nt == 3:
+                        for m2 in ml + [0xFFFFFFFF]:
+                            out.append(dict(d, **{firsts[1]: m2}))
+                        continue
                     for m1 in ml:
                         for m2 in ml:
                             out.append(dict(d, **{firsts[0]: m1, firsts[1]: m2}))
